@@ -233,6 +233,8 @@ def run_ign(case, viol, obs):
             kw0["trusted_edges_for_safety"] = gen.jl(list(dict.fromkeys([e] + rng.sample(base["edges"], rng.randint(1, len(base["edges"]))))))
         else:
             kw0["trusted_edges_for_safety_percentile"] = rng.choice([0, 25, 50])
+        if rng.random() < 0.6:
+            base["flow"][e] = 47 if base["wt"] == "int" else 47.5      # an outlier value (in every variant): the optimum without the element tends to avoid it
     variants = {"ignore": (dict(kw0, elements_to_ignore=[ej]), {}, [])}
     big = 97 if base["wt"] == "int" else 97.5
     if cls not in W.COV and not trusted_variant:
